@@ -9,6 +9,8 @@ git -C /repo worktree add -q --detach "$wt" HEAD || exit 2
 git -C "$wt" apply "$V/seeded/$id/patch.diff" || { echo "patch does not apply"; git -C /repo worktree remove --force "$wt"; exit 2; }
 rc=0
 for p in "$@"; do
-  JINNS_REPO="$wt" VERIF_EVIDENCE_DIR=/tmp/seed-evidence-$$ VERIF_REPLAY_DIR="$V/replay/seeded-$id" "$V/check" "$p" --tier "${VERIF_TIER:-quick}" 2>&1 | grep -E "VIOLATION|KNOWN-FINDING|^\[|INFRA" 
+  out=$(JINNS_REPO="$wt" VERIF_EVIDENCE_DIR=/tmp/seed-evidence-$$ VERIF_REPLAY_DIR="$V/replay/seeded-$id" "$V/check" "$p" --tier "${VERIF_TIER:-quick}" 2>&1); crc=$?
+  echo "$out" | grep -E "VIOLATION|KNOWN-FINDING|^\[|INFRA"
+  echo "seeded=$id check=$p exit=$crc"
 done
 git -C /repo worktree remove --force "$wt"; rm -rf /tmp/seed-evidence-$$
